@@ -38,7 +38,10 @@ import (
 // ---- canonical forms
 
 func dump(m bsmsg.BitSwapMessage) string {
-	es := m.Wantlist()
+	es := m.FillWantlist(nil)
+	if len(es)%2 == 0 {
+		es = m.Wantlist()
+	}
 	sort.Slice(es, func(i, j int) bool { return bytes.Compare(es[i].Cid.Bytes(), es[j].Cid.Bytes()) < 0 })
 	var ws []string
 	for _, e := range es {
@@ -56,8 +59,16 @@ func dump(m bsmsg.BitSwapMessage) string {
 	for _, p := range ps {
 		pl = append(pl, fmt.Sprintf("%s:%d", vh.Hex(p.Cid.Bytes()), int32(p.Type)))
 	}
-	return fmt.Sprintf("full=%d pend=%d wl=[%s] blk=[%s] pres=[%s]", b2i(m.Full()), m.PendingBytes(),
-		strings.Join(ws, ","), strings.Join(bl, ","), strings.Join(pl, ","))
+	hx := func(cs []cid.Cid) string {
+		ss := make([]string, len(cs))
+		for i, c := range cs {
+			ss[i] = vh.Hex(c.Bytes())
+		}
+		sort.Strings(ss)
+		return strings.Join(ss, ",")
+	}
+	return fmt.Sprintf("full=%d pend=%d wl=[%s] blk=[%s] pres=[%s] empty=%d size=%d have=[%s] dont=[%s]", b2i(m.Full()), m.PendingBytes(),
+		strings.Join(ws, ","), strings.Join(bl, ","), strings.Join(pl, ","), b2i(m.Empty()), m.Size(), hx(m.Haves()), hx(m.DontHaves()))
 }
 
 func b2i(b bool) int {
@@ -170,7 +181,7 @@ type poolBlock struct {
 func exec(cs vh.Case, o *vh.Out) {
 	var cids []cid.Cid
 	var blks []poolBlock
-	m := bsmsg.New(false)
+	var m bsmsg.BitSwapMessage = bsmsg.New(false)
 	honest, undef := true, false // every block added so far is honest / an Undef CID was used
 	for _, line := range cs.Ops {
 		f := strings.Fields(line)
@@ -231,8 +242,20 @@ func exec(cs vh.Case, o *vh.Out) {
 		case "pres":
 			c := cids[vh.Atoi(f[1])]
 			undef = undef || !c.Defined()
-			m.AddBlockPresence(c, pb.Message_BlockPresenceType(vh.Atoi(f[2])))
+			switch t := vh.Atoi(f[2]); t {
+			case 0:
+				m.AddHave(c)
+			case 1:
+				m.AddDontHave(c)
+			default:
+				m.AddBlockPresence(c, pb.Message_BlockPresenceType(t))
+			}
 			o.Kind("presence")
+			o.Emit("%s", dump(m))
+		case "clone":
+			m = m.Clone()
+			_ = m.Loggable()
+			o.Kind("clone")
 			o.Emit("%s", dump(m))
 		case "pending":
 			m.SetPendingBytes(int32(vh.Atoi(f[1])))
@@ -347,12 +370,18 @@ func sameV0(a, b bsmsg.BitSwapMessage) bool {
 
 var makers = []func(d []byte) cid.Cid{
 	func(d []byte) cid.Cid { return blocks.NewBlock(d).Cid() },
-	func(d []byte) cid.Cid { return sumCid(cid.Prefix{Version: 1, Codec: cid.Raw, MhType: mh.SHA2_256, MhLength: -1}, d) },
+	func(d []byte) cid.Cid {
+		return sumCid(cid.Prefix{Version: 1, Codec: cid.Raw, MhType: mh.SHA2_256, MhLength: -1}, d)
+	},
 	func(d []byte) cid.Cid {
 		return sumCid(cid.Prefix{Version: 1, Codec: cid.DagProtobuf, MhType: mh.SHA2_256, MhLength: -1}, d)
 	},
-	func(d []byte) cid.Cid { return sumCid(cid.Prefix{Version: 1, Codec: cid.Raw, MhType: mh.IDENTITY, MhLength: -1}, d) },
-	func(d []byte) cid.Cid { return sumCid(cid.Prefix{Version: 1, Codec: cid.DagCBOR, MhType: mh.SHA2_512, MhLength: -1}, d) },
+	func(d []byte) cid.Cid {
+		return sumCid(cid.Prefix{Version: 1, Codec: cid.Raw, MhType: mh.IDENTITY, MhLength: -1}, d)
+	},
+	func(d []byte) cid.Cid {
+		return sumCid(cid.Prefix{Version: 1, Codec: cid.DagCBOR, MhType: mh.SHA2_512, MhLength: -1}, d)
+	},
 }
 
 func sumCid(p cid.Prefix, d []byte) cid.Cid {
@@ -451,10 +480,76 @@ func genFromPB(r *vh.Rand, cids []cid.Cid, datas [][]byte) string {
 	if err != nil {
 		panic(err)
 	}
-	if r.Chance(1, 3) {
+	for k := r.Intn(3); r.Chance(1, 2) && k >= 0; k-- {
 		payload = mutate(r, payload)
 	}
-	// what protobuf-go makes of the (possibly mutated) bytes
+	return describe(payload)
+}
+
+// crafted builds protobuf wire bytes field by field: known and unknown field numbers, every wire type
+// (groups, reserved types, wrong types for known fields), duplicates of the singular wantlist field,
+// non-minimal varints, nested messages built the same way.
+func crafted(r *vh.Rand, cids []cid.Cid, datas [][]byte, depth int) []byte {
+	var b []byte
+	nums := []uint64{1, 1, 2, 3, 4, 5, 1, 2, 3, 4, 5, 6, 15, 16, 1 << 29, 1<<29 - 1, 0, 1<<31 - 1, 1 << 31}
+	for i, n := 0, r.Intn(6); i < n; i++ {
+		num := vh.Pick(r, nums)
+		wt := uint64(vh.Pick(r, []int{0, 0, 2, 2, 2, 2, 1, 5, 3, 4, 6, 7}))
+		if r.Chance(3, 4) && num >= 1 && num <= 5 { // mostly the schema's own type
+			wt = map[uint64]uint64{1: 2, 2: 2, 3: 2, 4: 2, 5: 0}[num]
+			if depth > 0 {
+				wt = vh.Pick(r, []uint64{2, 0, 0, 2})
+			}
+		}
+		tag := num<<3 | wt
+		if r.Chance(1, 12) { // non-minimal varint tag
+			b = append(b, byte(tag&0x7f)|0x80, byte(tag>>7)|0x80, 0)
+			if tag>>14 != 0 {
+				continue
+			}
+		} else {
+			b = protowire.AppendVarint(b, tag)
+		}
+		switch wt {
+		case 0:
+			b = protowire.AppendVarint(b, vh.Pick(r, []uint64{0, 1, 2, 127, 128, 300, 1<<32 - 1, 1 << 32, 1<<63 + 5, 1<<64 - 1}))
+		case 1:
+			b = append(b, r.Bytes(8)...)
+		case 5:
+			b = append(b, r.Bytes(4)...)
+		case 2:
+			var v []byte
+			switch {
+			case depth < 2 && r.Chance(1, 2):
+				v = crafted(r, cids, datas, depth+1)
+			case r.Chance(1, 2):
+				v = vh.Pick(r, cids[1:]).Bytes()
+			case r.Chance(1, 2):
+				v = vh.Pick(r, cids[1:]).Prefix().Bytes()
+			default:
+				v = vh.Pick(r, datas)
+			}
+			b = protowire.AppendVarint(b, uint64(len(v)))
+			if r.Chance(1, 15) && len(v) > 0 {
+				v = v[:len(v)-1] // length prefix larger than what follows (if last)
+			}
+			b = append(b, v...)
+		case 3:
+			if r.Chance(2, 3) {
+				b = append(b, crafted(r, cids, datas, 2)...)
+				endnum := num
+				if r.Chance(1, 6) {
+					endnum++
+				}
+				b = protowire.AppendVarint(b, endnum<<3|4)
+			}
+		}
+	}
+	return b
+}
+
+// describe = what protobuf-go makes of the bytes, with go-cid's verdicts
+func describe(payload []byte) string {
 	var q pb.Message
 	toks := []string{"frompb", vh.Hex(frame(payload))}
 	if proto.Unmarshal(payload, &q) != nil {
@@ -558,7 +653,7 @@ func gen(r0 *vh.Rand, tier string, n int, emit func(vh.Case)) {
 			case 9, 10, 11:
 				c.Ops = append(c.Ops, fmt.Sprintf("block %d", r.Intn(len(blks))))
 			case 12, 13, 14:
-				c.Ops = append(c.Ops, fmt.Sprintf("pres %d %d", anyCid(), vh.Pick(r, []int{0, 1, 1, 3})))
+				c.Ops = append(c.Ops, fmt.Sprintf("pres %d %d", anyCid(), vh.Pick(r, []int{0, 0, 1, 1, 3})))
 			case 15:
 				c.Ops = append(c.Ops, fmt.Sprintf("pending %d", vh.Pick(r, prios)))
 			case 16:
@@ -566,7 +661,11 @@ func gen(r0 *vh.Rand, tier string, n int, emit func(vh.Case)) {
 			case 17:
 				if r.Chance(1, 4) {
 					c.Ops = append(c.Ops, fmt.Sprintf("reset %d", r.Intn(2)))
+				} else if r.Chance(1, 2) {
+					c.Ops = append(c.Ops, "clone")
 				}
+			case 18:
+				c.Ops = append(c.Ops, describe(crafted(r, cids, datas, 0)))
 			default:
 				c.Ops = append(c.Ops, genFromPB(r, cids, datas))
 			}
